@@ -1,8 +1,12 @@
 package smoke
+
 import (
- "testing"
- "pgregory.net/rapid"
- _ "github.com/anishathalye/porcupine"
- "github.com/omec-project/upf-epc/pfcpiface"
+	_ "github.com/anishathalye/porcupine"
+	"github.com/omec-project/upf-epc/pfcpiface"
+	"pgregory.net/rapid"
+	"testing"
 )
-func TestSmoke(t *testing.T){ rapid.Check(t, func(t *rapid.T){ _ = rapid.Int().Draw(t,"x"); _ = pfcpiface.PFCPPort }) }
+
+func TestSmoke(t *testing.T) {
+	rapid.Check(t, func(t *rapid.T) { _ = rapid.Int().Draw(t, "x"); _ = pfcpiface.PFCPPort })
+}
